@@ -28,7 +28,7 @@ Mangling kinds (per side; path-id sides only get the ones marked *):
    idless*   an extra event with oid=None (file / folder, exists True/False/None, with or without path, incl. the
              dropbox-style folder delete matched by path)
    vanished* an extra event for an id the provider does not know (never existed; or existed and is gone - on a path-id
-             side only ids that were DELETED, one stale event per id)
+             side only ids that were DELETED)
    delay     arbitrary finite delay and permutation within a window        (id-stable sides only)
    replay    an arbitrary old event of the log is delivered again later    (id-stable sides only)
    droppath  the path field of an event is dropped                          (id-stable sides only)
@@ -53,8 +53,13 @@ PID = "C14"
 ALL = list(FLAVOURS)
 OID_LOCAL = ["oid-oid", "oid-oid-ci"]
 KINDS_ANY = ["dup", "batch", "walk", "idless", "vanished"]
-KINDS_STABLE = ["delay", "replay", "droppath"]
-KINDS = KINDS_ANY + KINDS_STABLE
+KINDS_STABLE = ["delay", "replay", "droppath", "hold", "walkonly"]
+KINDS = KINDS_ANY + ["delay", "replay", "droppath"]          # the kinds of the random families (one at a time and all together)
+# hold     every event of the side is held back until the engine has gone completely quiet on everything else (the other
+#          side's changes are taken in AND synced first), then released                     (id-stable sides only)
+# walkonly the provider's own events of the side are never delivered; what changed reaches the engine only through full
+#          walks (cs.walk(side) / the automatic walk of need_walk) made when the rest is quiet   (id-stable sides only;
+#          histories without deletions on that side: a walk cannot show a deletion)
 
 
 # ======================================================================================================================
@@ -75,6 +80,8 @@ class Mangler:
         self.window = window
         self.inner = self.p.events
         self.held = []                      # [countdown, event]
+        self.frozen = []                    # 'hold': events kept back until the engine is quiet on everything else
+        self.dirty = False                  # 'walkonly': an event was dropped since the last walk
         self.out = collections.deque()
         self.log = []                       # every genuine event seen, in provider order
         self.stats = collections.Counter()
@@ -122,28 +129,22 @@ class Mangler:
         from cloudsync.types import DIRECTORY, FILE
         old = [e for e in self.log if e.oid is not None and not self.p.info_oid(e.oid)]
         if not self.stable:
-            # known finding pathid-tombstone-erased-by-stale-event: on a path-id side a second stale 'exists' event (or one
-            # with exists=None) for a deleted path erases the tombstone.  Excluded by construction: at most one stale
-            # event per id, carrying what the original carried or exists=True.
-            # ... and only for ids that vanished by DELETION: on a path-id provider an id that was renamed away is not a
-            # vanished object - the object lives on under another id, and an old event about it is a late event about a
-            # live object, which the property claims for id-stable providers only.
+            # only ids that vanished by DELETION: on a path-id provider an id that was renamed away is not a vanished
+            # object - the object lives on under another id, and an old event about it is a late event about a live
+            # object, which the property claims for id-stable providers only.
+            # (fixed finding pathid-tombstone-erased-by-stale-event: any number of stale events per id, also exists=None)
             def deleted(oid):
                 last = None
                 for x in self.log:
                     if x.oid == oid or x.prior_oid == oid:
                         last = x
                 return last is not None and last.oid == oid and last.exists is False
-            old = [e for e in old if e.oid not in self.stale_used and deleted(e.oid)]
+            old = [e for e in old if deleted(e.oid)]
         if old and rng.random() < 0.6:
             e = rng.choice(old)
             self.stats["vanished-old"] += 1
-            if not self.stable:
-                self.stale_used.add(e.oid)
-                return self._copy(e, exists=rng.choice([e.exists, True]), prior_oid=None)
-            # whatever the event said at the time (exists / deleted), delivered once more, prior_oid kept
-            # (a path-id side: without prior_oid - a stale rename event names a second id, which may be live again;
-            #  late delivery of such events is claimed for id-stable providers only)
+            # whatever the event said at the time (exists / deleted), or "exists" / "unknown"; on a path-id side without
+            # prior_oid (a stale rename event names a second id, which may be live again)
             return self._copy(e, exists=rng.choice([e.exists, True, None]), prior_oid=e.prior_oid if self.stable else None)
         self.ghost += 1
         self.stats["vanished-ghost"] += 1
@@ -175,6 +176,11 @@ class Mangler:
                     batch.insert(rng.randint(len(batch) - 1, len(batch)), self._copy(e2))
                     if rng.random() < 0.5:
                         batch.append(self._copy(e2))        # a third delivery
+        if "walkonly" in k:
+            if batch:
+                self.dirty = True
+                self.stats["events-dropped-walk-only"] += len(batch)
+            batch = []
         extra_p = 0.35 if new else 0.04
         if "replay" in k and self.log and rng.random() < extra_p:
             batch.append(self._copy(rng.choice(self.log)))
@@ -184,7 +190,9 @@ class Mangler:
             self.stats["idless"] += 1
         if "vanished" in k and rng.random() < extra_p:
             batch.insert(rng.randint(0, len(batch)), self._extra_vanished())
-        if "delay" in k:
+        if "hold" in k:
+            self.frozen.extend(batch)
+        elif "delay" in k:
             for e in batch:
                 d = rng.randint(0, self.window)
                 if d:
@@ -416,7 +424,24 @@ class RunB:
     def quiet(self):
         return not self.w.busy() and not any(m.pending() for m in self.m)
 
-    def quiesce(self, cap=600):
+    def _walk_side(self, side):
+        self.walks += 1
+        self.w.by = "engine"
+        try:
+            if self.rng.random() < 0.5:
+                try:
+                    self.w.cs.walk(side)
+                except Exception as e:  # noqa  (root folder missing: nothing to walk)
+                    if type(e).__name__ != "CloudFileNotFoundError":
+                        raise
+            else:
+                self.w.cs.set_need_walk(side, True)
+        finally:
+            self.w.by = "user"
+
+    def quiesce(self, cap=900):
+        """to quiet; then ('hold') the events kept back are released and ('walkonly') the sides whose events were dropped
+        are walked, and the engine is run to quiet again, until nothing is kept back and nothing is unwalked"""
         n, quiet_rounds = 0, 0
         while n < cap:
             seq = list("LRS")
@@ -427,7 +452,21 @@ class RunB:
             if self.quiet():
                 quiet_rounds += 1
                 if quiet_rounds >= 2:
-                    return True
+                    more = False
+                    for m in self.m:
+                        if m.frozen:
+                            m.stats["released-after-quiescence"] += len(m.frozen)
+                            m.held.extend([0, e] for e in m.frozen)
+                            m.frozen = []
+                            more = True
+                        if m.dirty:
+                            m.dirty = False
+                            m.stats["walks-instead-of-events"] += 1
+                            self._walk_side(m.side)
+                            more = True
+                    if not more:
+                        return True
+                    quiet_rounds = 0
             else:
                 quiet_rounds = 0
         return False
@@ -519,6 +558,15 @@ def gen_history(family, flavour, seed, salt, storage="mock"):
                     if not cp() or not trees_converged(w.tree(0), w.tree(1), fold):
                         ok = False
                         break
+            elif family == "settled-nd":
+                # settled, without deletions: every change can be seen by a walk
+                for _ in range(rng.randint(2, 6)):
+                    sd = rng.randint(0, 1)
+                    if not rec.random_op(sd, kinds=["create", "create", "write", "write", "rename", "move", "mkdir", "dirrename", "caserename"]):
+                        continue
+                    if not cp() or not trees_converged(w.tree(0), w.tree(1), fold):
+                        ok = False
+                        break
             elif family == "onesided":
                 side = rng.randint(0, 1)
                 for _ in range(rng.randint(1, 6)):
@@ -584,6 +632,132 @@ def gen_history(family, flavour, seed, salt, storage="mock"):
                 "calls": calls.reduced(), "ops": list(rec.ops), "trace": list(rec.trace), "events": None}
     finally:
         w.close()
+
+
+STABLE2 = ["oid-oid", "oid-oid-ci", "oidci-oidcs", "oidcs-oidci"]
+
+
+def stable_side(flavour, side):
+    return not FLAVOURS[flavour][side][0]
+
+
+def gen_scripted(family, flavour, seed, salt, base, windows, storage="mock", label=None):
+    """run A (prompt in-order delivery) of an explicit scenario: `base` and every window are lists of
+    (side, kind, rel, [rel2], [data]) user operations; each window is followed by quiescence under a seeded fair schedule"""
+    rng = random.Random((seed * 1000003) ^ hash_str("c14s" + salt + flavour + family))
+    hashmix = rng.random() < 0.2
+    w = World(flavour, storage=storage)
+    set_hashmix(w, hashmix)
+    rec = Script(w, rng)
+    rec.spell_roots = False
+    calls = CallLog(w)
+    cps = []
+    fold = flavour.endswith("-ci")
+
+    def cp():
+        q = rec.checkpoint()
+        cps.append((q, w.tree(0), w.tree(1)))
+        return q and trees_converged(w.tree(0), w.tree(1), fold or flavour in ("oidci-oidcs", "oidcs-oidci"))
+
+    def do(op):
+        side, kind = op[0], op[1]
+        if kind in ("create", "write"):
+            rec.user(side, kind, op[2], tag=rec.fresh(), data=op[3] if len(op) > 3 else None)
+        elif kind == "rename":
+            rec.user(side, "rename", op[2], op[3])
+        else:
+            rec.user(side, kind, op[2])
+    try:
+        ok = cp()
+        for op in base:
+            do(op)
+        ok = cp() and ok
+        for win in windows:
+            for op in win:
+                do(op)
+                for _ in range(rng.randint(0, 1) if family == "twosided" else 0):
+                    pass
+            ok = cp() and ok
+        return {"family": family, "flavour": flavour, "storage": storage, "hashmix": hashmix, "script": rec.script, "checkpoints": cps,
+                "ok": ok, "calls": calls.reduced(), "ops": list(rec.ops), "trace": list(rec.trace), "events": None, "label": label}
+    finally:
+        w.close()
+
+
+FILE_OPS = ["write", "delete", "rename", "none"]
+
+
+def twosided_scenarios():
+    """systematic: ONE synced object, side a does opA, the other side does opB in the same unsynced window (no engine step
+    in between); id-stable providers on both sides; both directions; base built on either side.
+    Yields (label, flavour, base, windows, a)"""
+    for fl in STABLE2:
+        for a in (0, 1):
+            b = 1 - a
+            for bs in (0, 1):
+                for where in ("/f.txt", "/g/f.txt"):
+                    base = ([(bs, "mkdir", "/g")] if where.startswith("/g/") else []) + [(bs, "create", where)]
+                    for opa in FILE_OPS:
+                        for opb in FILE_OPS:
+                            if opa == "none" and opb == "none":
+                                continue
+                            win = []
+                            for side, op, newname in ((a, opa, where.replace("f.txt", "fa.txt")), (b, opb, where.replace("f.txt", "fb.txt"))):
+                                if op == "write":
+                                    win.append((side, "write", where))
+                                elif op == "delete":
+                                    win.append((side, "delete", where))
+                                elif op == "rename":
+                                    win.append((side, "rename", where, newname))
+                            yield ("file:%s:%s-vs-%s:a=%d:base=%d" % (where, opa, opb, a, bs), fl, base, [win], a)
+                # folders: empty and with a child
+                for child in (False, True):
+                    base = [(bs, "mkdir", "/g")] + ([(bs, "create", "/g/c.txt")] if child else [])
+                    fops = ["rename", "addchild", "none"] + ([] if child else ["delete"])
+                    for opa in fops:
+                        for opb in fops:
+                            if opa == "none" and opb == "none":
+                                continue
+                            if {opa, opb} == {"rename", "delete"}:
+                                continue        # known finding folder-rename-vs-delete-order-dependent (excluded by construction)
+                            win = []
+                            for side, op, newname, kid in ((a, opa, "/ga", "/g/ka.txt"), (b, opb, "/gb", "/g/kb.txt")):
+                                if op == "rename":
+                                    win.append((side, "rename", "/g", newname))
+                                elif op == "delete":
+                                    win.append((side, "delete", "/g"))
+                                elif op == "addchild":
+                                    win.append((side, "create", kid))
+                            yield ("folder%s:%s-vs-%s:a=%d:base=%d" % ("+child" if child else "", opa, opb, a, bs), fl, base, [win], a)
+
+
+WALK_FLAVOURS = {0: ["oid-oid", "oid-oid-ci", "oidci-oidcs", "oidcs-oidci", "oid-path"],
+                 1: ["oid-oid", "oid-oid-ci", "oidci-oidcs", "oidcs-oidci", "path-oidf", "path-oidf-ci"]}
+WALK_CHANGES = ["create", "create-in-folder", "mkdir", "mkdir-in-folder", "overwrite", "overwrite-empty", "rename", "move", "move-out",
+                "folder-rename", "folder-rename+child", "folder-move+child", "case-file", "case-file-in-folder", "case-folder", "case-folder+child",
+                "case-file+overwrite", "case-both"]
+
+
+def walkonly_scenarios():
+    """systematic: ONE change on side s (id-stable) that a walk can show (no deletion); base built on either side; the
+    registered run B drops every event of side s and walks instead.  Yields (label, flavour, base, windows, s)"""
+    for s in (0, 1):
+        for fl in WALK_FLAVOURS[s]:
+            for bs in (0, 1):
+                base = [(bs, "mkdir", "/g"), (bs, "create", "/g/c.txt"), (bs, "create", "/f.txt"), (bs, "mkdir", "/h")]
+                for ch in WALK_CHANGES:
+                    win = {"create": [(s, "create", "/n.txt")], "create-in-folder": [(s, "create", "/g/n.txt")],
+                           "mkdir": [(s, "mkdir", "/m")], "mkdir-in-folder": [(s, "mkdir", "/g/m")],
+                           "overwrite": [(s, "write", "/f.txt")], "overwrite-empty": [(s, "write", "/f.txt", b"")],
+                           "rename": [(s, "rename", "/f.txt", "/f2.txt")], "move": [(s, "rename", "/f.txt", "/h/f.txt")],
+                           "move-out": [(s, "rename", "/g/c.txt", "/c.txt")],
+                           "folder-rename": [(s, "rename", "/h", "/h2")], "folder-rename+child": [(s, "rename", "/g", "/g2")],
+                           "folder-move+child": [(s, "rename", "/g", "/h/g")],
+                           "case-file": [(s, "rename", "/f.txt", "/F.txt")], "case-file-in-folder": [(s, "rename", "/g/c.txt", "/g/C.TXT")],
+                           "case-folder": [(s, "rename", "/h", "/H")], "case-folder+child": [(s, "rename", "/g", "/G")],
+                           "case-file+overwrite": [(s, "rename", "/f.txt", "/F.txt"), (s, "write", "/F.txt")],
+                           "case-both": [(s, "rename", "/g", "/G"), (s, "rename", "/G/c.txt", "/G/C.txt")]}[ch]
+                    yield ("walk:%s:s=%d:base=%d" % (ch, s, bs), fl, base, [win], s)
 
 
 def name_reuse(script):
@@ -670,12 +844,21 @@ def call_mode(hist):
     return "trees"
 
 
-def kinds_for(hist, kinds):
+def kinds_for(hist, kinds, mseed=0):
     """per-side kinds for a history.  In the families whose user operations interleave with engine steps (onesided,
     disjoint) a path-id side is not given per-event batching: the event that ends an id (delete / rename away) may then
     not exist yet when the earlier events of that id are trickled in, and the pinned engine, reading the dead id as
     MISSING five times, re-creates the object from the other side (known finding pathid-stale-id-punted-out)."""
     ks = mangle_sides(kinds)
+    if any(k in ("hold1", "walkonly1") for v in ks.values() for k in v):
+        # `hold1` / `walkonly1`: on ONE id-stable side (chosen by the mangle seed), nothing on the other side
+        stable = [sd for sd in (0, 1) if stable_side(hist["flavour"], sd)]
+        tok = [k for k in ks[0] if k in ("hold1", "walkonly1")][0]
+        if not stable:
+            ks = {0: [], 1: []}
+        else:
+            pick = stable[mseed % len(stable)]
+            ks = {pick: [tok[:-1]], 1 - pick: []}
     if hist["family"] in ("onesided", "disjoint"):
         lf, rf = FLAVOURS[hist["flavour"]]
         ks = {side: [k for k in ks.get(side, []) if not (k == "batch" and (lf, rf)[side][0])] for side in (0, 1)}
@@ -685,7 +868,7 @@ def kinds_for(hist, kinds):
 def compare_py(hist, kinds, mseed, final_check=True):
     """calibration-time comparison in Python (the registered check sends the same data through the Lean layer).
     Returns (failures list, stats)."""
-    b = RunB(hist["flavour"], kinds_for(hist, kinds), mseed, storage=hist["storage"], hashmix=hist["hashmix"])
+    b = RunB(hist["flavour"], kinds_for(hist, kinds, mseed), mseed, storage=hist["storage"], hashmix=hist["hashmix"])
     fails = []
     try:
         fold = hist["flavour"].endswith("-ci")
@@ -730,6 +913,7 @@ def compare_py(hist, kinds, mseed, final_check=True):
 
 
 FAMILY_FLAVOURS = {
+    "settled-nd": [f for f in FLAVOURS if f != "path-path"],
     "settled": ALL,
     "burst": ALL,
     "onesided": OID_LOCAL,
@@ -737,11 +921,60 @@ FAMILY_FLAVOURS = {
 }
 
 
+def scenario_runs(which, seed, rounds):
+    """(hist, kinds, mseed) for the systematic scenario classes"""
+    k = 0
+    for r in range(rounds):
+        if which in ("twosided", "all"):
+            for label, fl, base, wins, a in twosided_scenarios():
+                for held in ("a", "b", "delay"):
+                    k += 1
+                    kinds = {"a": {a: ["hold"], 1 - a: []}, "b": {a: [], 1 - a: ["hold"]}, "delay": {0: ["delay", "dup"], 1: ["delay", "dup"]}}[held]
+                    yield ("twosided", label + ":held=" + held, fl, base, wins, kinds, "r%d" % r, (seed + 1) * 7919 + k)
+        if which in ("walkonly", "all"):
+            for label, fl, base, wins, sd in walkonly_scenarios():
+                for other in ("plain", "dup"):
+                    k += 1
+                    kinds = {sd: ["walkonly"], 1 - sd: ([] if other == "plain" else ["dup", "delay"])}
+                    yield ("walkonly", label + ":other=" + other, fl, base, wins, kinds, "r%d" % r, (seed + 1) * 7919 + k)
+
+
+def calibrate_scenarios(argv):
+    """usage: c14_events.py --calibrate-scenarios twosided|walkonly|all <rounds> [seed0]"""
+    which, rounds = argv[0], int(argv[1])
+    seed0 = int(argv[2]) if len(argv) > 2 else 0
+    import_repo()
+    tot = collections.Counter()
+    bad = collections.Counter()
+    t0 = _time.time()
+    for fam, label, fl, base, wins, kinds, salt, mseed in scenario_runs(which, seed0, rounds):
+        hist = gen_scripted(fam, fl, seed0, salt + label.split(":held=")[0].split(":other=")[0], base, wins, label=label)
+        cls = re_class(label)
+        if not hist["ok"]:
+            tot[(cls, "A-not-converged")] += 1
+            continue
+        fails, st, b = compare_py(hist, kinds, mseed)
+        tot[(cls, "runs")] += 1
+        if fails:
+            bad[(cls, fl)] += 1
+            if bad[(cls, fl)] <= 1:
+                print("FAIL", label, fl, kinds, fails[:2], flush=True)
+    print("scenario calibration %s rounds=%d seed0=%d in %.0fs" % (which, rounds, seed0, _time.time() - t0))
+    print("  runs", sum(v for k, v in tot.items() if k[1] == "runs"), "A-not-converged", {k[0]: v for k, v in tot.items() if k[1] != "runs"})
+    print("  failing classes", {"%s/%s" % k: v for k, v in sorted(bad.items())})
+
+
+def re_class(label):
+    """scenario class = the label without direction / base side"""
+    import re
+    return re.sub(r":a=\d|:s=\d|:base=\d", "", label)
+
+
 def calibrate(argv):
     """usage: c14_events.py --calibrate <kind[,kind..]> <n> [family[,family]] [seed0]"""
     kinds = argv[0].split(",")
     n = int(argv[1])
-    fams = argv[2].split(",") if len(argv) > 2 else list(FAMILY_FLAVOURS)
+    fams = argv[2].split(",") if len(argv) > 2 else [f for f in FAMILY_FLAVOURS if f != "settled-nd"]
     seed0 = int(argv[3]) if len(argv) > 3 else 0
     import_repo()
     total, bad = 0, 0
@@ -837,13 +1070,13 @@ def enc_event(ot, oid, path, h, ex, accurate=False):
 
 class ModelWorld:
     """a real SyncState over two real MockProviders (side 0 is the modelled side), one real EventManager, virtual clock"""
-    def __init__(self, oid_is_path, strip_info_hash=False):
+    def __init__(self, oid_is_path, strip_info_hash=False, case_sensitive=True):
         self.clock = VClock(100.0)
         install_determinism(self.clock)
         from cloudsync.providers.mock import MockProvider
         from cloudsync.sync.state import SyncState
         self.ip = oid_is_path
-        self.provs = (MockProvider(oid_is_path, True), MockProvider(False, True))
+        self.provs = (MockProvider(oid_is_path, case_sensitive), MockProvider(False, True))
         for p in self.provs:
             p.connect({"key": "val"})
         self.strip = strip_info_hash
@@ -1033,27 +1266,32 @@ def gen_pe_cases(rng, n):
     for _ in range(n):
         ents = []
         for k in range(rng.randint(0, 4)):
-            ents.append({"oid": "e%d" % k, "path": rng.choice(["/r/x", "/r/x", "/r/y", "/r/dir", None]),
+            ents.append({"oid": "e%d" % k, "path": rng.choice(["/r/x", "/r/x", "/r/y", "/r/dir", "/r/X", None]),
                          "hash": rng.choice([None, b"h1", b"h2"]), "otype": rng.choice(["file", "dir"]),
                          "ign": rng.choice(["n", "n", "n", "d", "c", "i", "t"])})
         ev = {"otype": rng.choice([FILE, DIRECTORY, DIRECTORY]),
               "oid": rng.choice([None, None, "e0", "e1", "e2", "unknown9"]),
-              "path": rng.choice([None, "", "/r/x", "/r/y", "/r/dir", "/r/nowhere"]),
+              "path": rng.choice([None, "", "/r/x", "/r/y", "/r/dir", "/r/nowhere", "/r/X", "/r/DIR"]),
               "hash": rng.choice([None, b"h1", b"h2"]),
               "ex": rng.choice([True, False, False, None]),
               "from_walk": rng.random() < 0.5}
         if ents and rng.random() < 0.35:
             # an event that repeats what the state already holds for an entry (a walk over an unchanged object)
             k = rng.choice(ents)
-            ev.update({"oid": k["oid"], "hash": k["hash"] if rng.random() < 0.8 else b"h9", "path": k["path"] if rng.random() < 0.8 else "/r/moved",
-                       "from_walk": rng.random() < 0.8})
-        yield {"ents": ents, "ev": ev}
+            newpath = k["path"]
+            r = rng.random()
+            if r < 0.15:
+                newpath = "/r/moved"
+            elif r < 0.4 and k["path"]:
+                newpath = k["path"].swapcase().replace("/R/", "/r/")       # the same name in another case
+            ev.update({"oid": k["oid"], "hash": k["hash"] if rng.random() < 0.8 else b"h9", "path": newpath, "from_walk": rng.random() < 0.8})
+        yield {"ents": ents, "ev": ev, "ci": rng.random() < 0.5}
 
 
 def run_pe_case(c):
     from cloudsync.event import Event, EventManager
     from cloudsync.types import OType
-    mw = ModelWorld(False)
+    mw = ModelWorld(False, case_sensitive=not c.get("ci", False))
     EventManager._provider_guard.clear()
     emgr = EventManager(mw.provs[0], mw.state, 0)
     made = []
@@ -1319,8 +1557,39 @@ def replay_batched_file_over_deleted_folder():
     return run(False) == (True, False, "f") and run(True) == (True, True, "d")
 
 
+def replay_folder_rename_vs_delete():
+    """id-stable providers on both sides: an EMPTY synced folder g is renamed on one side (g -> ga) and deleted on the other
+    in the same unsynced window.  Prompt delivery: the delete wins (no folder on either side).  The deleting side's events
+    held back until the rename has been synced: the rename wins (ga on both sides)."""
+    def run(hold):
+        w = World("oid-oid")
+        try:
+            _quiesce_plain(w)
+            w.user(0, "mkdir", "/local/g")
+            _quiesce_plain(w)
+            w.user(0, "rename", "/local/g", "/local/ga")
+            w.user(1, "delete", "/remote/g")
+            if hold:
+                m = Mangler(w, 1, random.Random(1), ["hold"])
+                _quiesce_plain(w)
+                m.held.extend([0, e] for e in m.frozen)
+                m.frozen = []
+                q = _quiesce_plain(w, extra=m.pending)
+            else:
+                q = _quiesce_plain(w)
+            return q, sorted(w.tree(0)), sorted(w.tree(1))
+        finally:
+            w.close()
+    return run(False) == (True, [], []) and run(True) == (True, ["/ga"], ["/ga"])
+
+
+# fixed findings: replayed on every run; must NOT reproduce (a regression is a VIOLATION with the replay as input)
+FIXED = {
+    "pathid-tombstone-erased-by-stale-event": lambda: replay_tombstone_erased("twice") or replay_tombstone_erased("none") or not replay_tombstone_single_stale_ok(),
+}
+
 KNOWN = {
-    "pathid-tombstone-erased-by-stale-event": lambda: replay_tombstone_erased("twice") and replay_tombstone_erased("none") and replay_tombstone_single_stale_ok(),
+    "folder-rename-vs-delete-order-dependent": replay_folder_rename_vs_delete,
     "pathid-ci-walk-before-case-rename-event": replay_ci_walk_before_case_rename,
     "pathid-stale-id-punted-out": replay_stale_id_punted_out,
     "ci-root-spelling-batch-livelock": replay_ci_root_spelling_livelock,
@@ -1336,22 +1605,9 @@ def replay_witnesses():
     from cloudsync.types import FILE
     from cloudsync.sync.state import Exists
     out = {}
-    # duplicate_event_raw_differs / duplicate_event_pathid_vanished_differs
-    def dup(n):
-        mw = ModelWorld(True)
-        mw.provs[0].mkdir("/r")
-        ent = mw.make_entry(FILE, "/r/a", "/r/a", b"h", "T", None, 0, 0, "n")
-        seen = []
-        for _ in range(n):
-            mw.clock.advance(3)
-            mw.state.update(0, FILE, "/r/a", path="/r/a", exists=True)
-            seen.append(ent[0].exists)
-        ent.get_latest(force=True, sides=(0,))
-        return seen, ent[0].exists
-    s1, g1 = dup(1)
-    s2, g2 = dup(2)
-    out["duplicate_event_raw_differs"] = s1 == [Exists.LIKELY_TRASHED] and s2 == [Exists.LIKELY_TRASHED, Exists.EXISTS]
-    out["duplicate_event_pathid_vanished_differs"] = g1 == Exists.TRASHED and g2 == Exists.MISSING
+    # (duplicate_event_raw_differs / duplicate_event_pathid_vanished_differs were witnesses before fix
+    #  pathid-tombstone-erased-by-stale-event; they are theorems `duplicate_event_same_state` /
+    #  `stale_events_cannot_erase_tombstone` now and are evaluated by the step-4 oracle and the fixed-finding replay)
     # truth_overrides_needs_not_corrupt
     def corrupt(h):
         mw = ModelWorld(False)
@@ -1443,6 +1699,27 @@ def oracle_state(rng, n):
             ent2.get_latest(force=True, sides=(0,))
             if fields(ent2) != once:
                 return dict(desc, law="duplicate_event_same_state_partial", got=repr(fields(ent2)), want=repr(once))
+        # duplicate_event_same_state (raw): second delivery changes nothing but the change time
+        mw4, oid4, ent4, hs4 = build()
+        mw4.clock.advance(3)
+        mw4.state.update(0, ev["otype"], oid4, path=path_choice(ev["path"], c["true_path"]), hash=hs4[ev["hash"]], exists=ev["ex"])
+        one = fields(ent4)
+        mw4.clock.advance(3)
+        mw4.state.update(0, ev["otype"], oid4, path=path_choice(ev["path"], c["true_path"]), hash=hs4[ev["hash"]], exists=ev["ex"])
+        if fields(ent4) != one:
+            return dict(desc, law="duplicate_event_same_state", got=repr(fields(ent4)), want=repr(one))
+        # stale_events_cannot_erase_tombstone
+        if info is None and c["e_ex"] in ("T", "L"):
+            mw5, oid5, ent5, hs5 = build()
+            for x in c["events"]:
+                if x["otype"].value == "trashed" and x["ex"] is True:
+                    continue
+                mw5.clock.advance(3)
+                mw5.state.update(0, x["otype"], oid5, path=path_choice(x["path"], c["true_path"]), hash=hs5[x["hash"]], exists=x["ex"])
+            mw5.clock.advance(3)
+            ent5.get_latest(force=True, sides=(0,))
+            if ent5[0].exists != Exists.TRASHED:
+                return dict(desc, law="stale_events_cannot_erase_tombstone", events=repr([(x["ex"], x["path"]) for x in c["events"]]), got=repr(ent5[0].exists))
         # the event makes the entry stale: pre_sync's plain get_latest() re-reads
         mw3, oid3, ent3, hs3 = build()
         ent3[0]._last_gotten = 50.0
@@ -1479,8 +1756,8 @@ def enc_calls(calls):
 
 def engine_cases(tier, seed):
     """yields (kind-config, history, run B data) for the Lean layer"""
-    per = 10 if tier == "quick" else 150
-    fams = [(f, fl) for f in FAMILY_FLAVOURS for fl in FAMILY_FLAVOURS[f]]
+    per = 8 if tier == "quick" else 150
+    fams = [(f, fl) for f in FAMILY_FLAVOURS if f != "settled-nd" for fl in FAMILY_FLAVOURS[f]]
     rng = rng_for(seed, "c14-plan")
     i = 0
     for cfg in CONFIGS:
@@ -1494,10 +1771,44 @@ def engine_cases(tier, seed):
                 yield cfg, kinds, hist, (seed + 1) * 100003 + i
 
 
+CORE_SCENARIOS = ("file:/f.txt:write-vs-delete", "file:/f.txt:delete-vs-write", "file:/g/f.txt:write-vs-delete", "walk:case-")
+
+
+def extra_cases(tier, seed):
+    """(config name, kinds, history, mangle seed): `hold` on one id-stable side for the random families, `walkonly` on one
+    id-stable side for the deletion-free settled family, and the two systematic scenario classes (quick: the core classes
+    - edit-vs-delete of a synced file with either side held back, case-only renames seen through a walk only - in full,
+    the rest sampled 1 in 10 with a seed-dependent offset; thorough: everything, two schedules each)"""
+    per = 6 if tier == "quick" else 80
+    rng = rng_for(seed, "c14-extra")
+    fams = [(f, fl) for f in ("settled", "burst", "onesided", "disjoint") for fl in FAMILY_FLAVOURS[f] if fl != "path-path"]
+    i = 0
+    for _ in range(per):
+        rng.shuffle(fams)
+        for fam, fl in fams[:6]:
+            i += 1
+            yield "hold", ["hold1"], gen_history(fam, fl, seed, "hold-%d" % i), (seed + 1) * 50021 + i
+    nd = list(FAMILY_FLAVOURS["settled-nd"])
+    for _ in range(per):
+        rng.shuffle(nd)
+        for fl in nd[:6]:
+            i += 1
+            yield "walkonly", ["walkonly1"], gen_history("settled-nd", fl, seed, "wo-%d" % i), (seed + 1) * 50021 + i
+    k = 0
+    for fam, label, fl, base, wins, kinds, salt, mseed in scenario_runs("all", seed, 1 if tier == "quick" else 2):
+        k += 1
+        if tier == "quick":
+            core = any(c in label for c in CORE_SCENARIOS) and not label.endswith(":held=delay") and not label.endswith(":other=dup")
+            if not core and (k + seed) % 10:
+                continue
+        hist = gen_scripted(fam, fl, seed, salt + label.split(":held=")[0].split(":other=")[0], base, wins, label=label)
+        yield fam, kinds, hist, mseed
+
+
 def run_pair(hist, kinds, mseed):
     """run B of a history; returns (list of driver lines with their descriptions, hard failures, stats)"""
     fold = hist["flavour"].endswith("-ci")
-    b = RunB(hist["flavour"], kinds_for(hist, kinds), mseed, storage=hist["storage"], hashmix=hist["hashmix"])
+    b = RunB(hist["flavour"], kinds_for(hist, kinds, mseed), mseed, storage=hist["storage"], hashmix=hist["hashmix"])
     lines, hard = [], []
     try:
         cps = []
@@ -1544,7 +1855,7 @@ def run_pair(hist, kinds, mseed):
         stats["mode:" + mode] += 1
         if stats_case_only:
             stats["final-replay-skipped-sides-differ-in-case"] += 1
-        summ = {"flavour": hist["flavour"], "family": hist["family"], "storage": hist["storage"], "different_hash_functions": hist["hashmix"], "mangling": kinds_for(hist, kinds), "mangle_seed": mseed,
+        summ = {"flavour": hist["flavour"], "family": hist["family"], "storage": hist["storage"], "different_hash_functions": hist["hashmix"], "scenario": hist.get("label"), "mangling": kinds_for(hist, kinds, mseed), "mangle_seed": mseed,
                 "call_mode": mode, "operations": [list(map(str, x[1:])) for x in hist["script"] if x[0] == "U"],
                 "schedule": "".join(x[1] if x[0] == "E" else ("|" if x[0] == "Q" else "u") for x in hist["script"])[:400],
                 "prompt_run": {"left": tree_lines(hist["checkpoints"][-1][1]), "right": tree_lines(hist["checkpoints"][-1][2]), "writes": [list(k) for k in hist["calls"]]},
@@ -1571,6 +1882,11 @@ def run(res, tier, seed, proof_broken, replay):
                 res.known.append("%s :: %s" % (ident, opens[ident]))
             elif hit is False:
                 res.notes.append("known finding %s no longer reproduces (stale)" % ident)
+    for ident, fn in FIXED.items():
+        if ident in fixed and fn():
+            res.violation({"property": PID, "kind": "regression of fixed finding", "id": ident, "what": fixed[ident],
+                           "replay": "harness/c14_events.py replay_tombstone_erased: path-oidf; R create /d; quiesce; L delete /d; step L; queue on L "
+                                     "Event(FILE,'/local/d','/local/d',None,True) twice (or once with exists=None); round-robin: /d must stay deleted"})
     wit = replay_witnesses()
     res.coverage["witnesses_replayed_on_real_code"] = wit
     # 3a. model tie
@@ -1581,7 +1897,8 @@ def run(res, tier, seed, proof_broken, replay):
     cells = collections.Counter()
     unreliable = 0
     skipped = collections.Counter()
-    for cfg, kinds, h, mseed in engine_cases(tier, seed):
+    import itertools
+    for cfg, kinds, h, mseed in itertools.chain(engine_cases(tier, seed), extra_cases(tier, seed)):
         if not h["ok"]:
             unreliable += 1        # the prompt run itself did not converge: not a C14 matter (C01), history dropped
             continue
@@ -1652,5 +1969,8 @@ def run(res, tier, seed, proof_broken, replay):
 if __name__ == "__main__":
     if len(sys.argv) > 1 and sys.argv[1] == "--calibrate":
         calibrate(sys.argv[2:])
+        sys.exit(0)
+    if len(sys.argv) > 1 and sys.argv[1] == "--calibrate-scenarios":
+        calibrate_scenarios(sys.argv[2:])
         sys.exit(0)
     standard_main(PID, run)
